@@ -3,7 +3,38 @@ from ..core import Run
 from .. import xengine
 
 
+def _proc(args):
+    tool, argv, seed, hs = args
+    import subprocess, os
+    from ..core import REPO
+    env = dict(os.environ, PYTHONHASHSEED=str(hs), PYTHONPATH=REPO, PYTHONWARNINGS='ignore')
+    code = ("import sys,importlib;importlib.import_module('cnfgen.clitools.%s');"
+            "sys.argv=%r;sys.modules['cnfgen.clitools.%s'].main()" % (tool, [tool, '--seed', str(seed)] + [str(a) for a in argv], tool))
+    r = subprocess.run(['/venv/bin/python', '-W', 'ignore', '-c', code], capture_output=True, text=True, env=env, cwd='/tmp', timeout=120)
+    return r.returncode, r.stdout
+
+
+def process_sweep(part, commands):
+    """Auxiliary, NOT solver-based and not counted as decided: every command line is started in fresh interpreter
+    processes with three different PYTHONHASHSEED values and the outputs are compared (hash randomisation cannot
+    be made symbolic; this is the concrete sweep the design announces for it)."""
+    import multiprocessing
+    jobs = [(t, argv, 1, hs) for (t, argv) in commands for hs in (0, 1, 4242)]
+    with multiprocessing.get_context('fork').Pool(16) as pool:
+        res = pool.map(_proc, jobs)
+    for i, (t, argv) in enumerate(commands):
+        outs = {res[3 * i + j] for j in range(3)}
+        part.counts['process_sweep_commands'] += 1
+        if len(outs) != 1:
+            part.case('c07.proc', 'hashseed_dependence', {'tool': t, 'argv': [str(a) for a in argv]},
+                      'output of `%s --seed 1 %s` differs between processes with different PYTHONHASHSEED' % (t, ' '.join(str(a) for a in argv)))
+
+
 def replay(case):
+    if case['harness'] == 'c07.proc':
+        p = case['input']
+        outs = {_proc((p['tool'], p['argv'], 1, hs)) for hs in (0, 1, 4242, 7, 99)}
+        return len(outs) != 1, '%d distinct outputs over 5 PYTHONHASHSEED values' % len(outs)
     return xengine.replay(case)
 
 
@@ -21,7 +52,7 @@ def run(tier):
         'on both runs (one path per seed), a leak is refuted with the two distinguishing values. Library generators with a seed= '
         'argument are called twice the same way.')
     run.bounds = ['%d command lines x 4 seeds; 9 library generators x 4 seeds' % len(H.COMMANDS), 'graphs and formulas with <=8 vertices / variables per side', '<=40 unseeded draws per run']
-    run.outside = ['hash randomisation (PYTHONHASHSEED) and the working directory are properties of the interpreter process, not of any function that can be executed symbolically; '
+    run.outside = ['hash randomisation (PYTHONHASHSEED) and the working directory are properties of the interpreter process, not of any function that can be executed symbolically (an auxiliary concrete sweep over three PYTHONHASHSEED values per command line is run and reported separately); '
                    'the version string in the header is computed by `git describe` in the current directory (observation, not decided)',
                    'the Mersenne Twister itself: "same seed => same stream" is assumed', 'command lines outside the table']
     run.assumptions = ['stub: module random (functions and random._inst) -> two-phase fake (arbitrary before seed, random.Random(seed) after)',
@@ -35,4 +66,8 @@ def run(tier):
     xengine.encoded(part, sys.modules['cnfgen.clitools.cnfgen'].cli, sys.modules['cnfgen.clitools.pbgen'].cli,
                     sys.modules['cnfgen.clitools.cnfshuffle'].cli, sys.modules['cnfgen.clitools.cnfgen'].setup_command_line_parsers)
     run.add(part, {'harness': 'c07.x', 'engine': 'X (self-composition)', 'conditions': len(conds)})
+    from ..core import Part
+    p2 = Part()
+    process_sweep(p2, H.COMMANDS)
+    run.add(p2, {'harness': 'c07.proc', 'engine': 'plain process sweep over PYTHONHASHSEED (auxiliary, not solver-decided)'})
     return run.finish()
